@@ -344,10 +344,21 @@ class DatePart:
 
 
 class SStructTime:
-    def __init__(self, day, h, m, s, wday=None, date_tok=None, isdst=-1):
+    def __init__(self, day, h, m, s, wday=None, date_tok=None, isdst=-1, gmtoff=None):
         self.day, self.tm_hour, self.tm_min, self.tm_sec = day, h, m, s
         self._wday = wday
         self.tm_isdst = isdst
+        self._gmtoff = gmtoff
+
+    @property
+    def tm_gmtoff(self):
+        if self._gmtoff is None:
+            raise Unsupported("tm_gmtoff of a struct_time that did not come from localtime/gmtime")
+        return self._gmtoff
+
+    @property
+    def tm_zone(self):
+        raise Unsupported("tm_zone (zone abbreviation)")
 
     @property
     def tm_wday(self):
@@ -494,7 +505,7 @@ class TimeModule:
         te.path.assume(_bt(te.in_window(secs)))
         local = secs + te.off(secs)
         day, h, m, s = te.decomp(local, "loc")
-        return SStructTime(day, h, m, s, isdst=te.isdst(secs))
+        return SStructTime(day, h, m, s, isdst=te.isdst(secs), gmtoff=te.off(secs))
 
     def gmtime(self, secs=None):
         if not E.active():
@@ -507,7 +518,7 @@ class TimeModule:
         if isinstance(secs, FL.FClock):
             secs = secs.t
         day, h, m, s = te.decomp(SymInt._coerce(secs) if isinstance(secs, int) else secs, "gmt")
-        return SStructTime(day, h, m, s, isdst=0)
+        return SStructTime(day, h, m, s, isdst=0, gmtoff=0)
 
     def strftime(self, fmt, st=None):
         if not E.active():
@@ -525,30 +536,32 @@ class TimeModule:
             return _time.strptime(s, fmt)
         if isinstance(fmt, SymSeq):
             fmt = fmt.concrete()
-        if fmt == "%d/%m/%Y %H:%M":
+        dfmt, tkind = _date_prefix(fmt)
+        if dfmt is not None and fmt[len(dfmt):] in (" %H:%M", "%H:%M") and len(fmt) > len(dfmt):
             items = list(s.items)
-            if not items or not isinstance(items[0], Tok) or items[0].tkind != "LocalDate":
-                raise Unsupported("strptime %r on a date that is not a rendered local date" % fmt)
+            if not items or not isinstance(items[0], Tok) or items[0].tkind != tkind:
+                raise Unsupported("strptime %r on a date that is not a rendered date of that format" % fmt)
             day = items[0].args[0]
             rest = items[1:]
-            # \s+ then H:M
-            if not rest:
-                raise ValueError("time data does not match format")
             k = 0
-            while k < len(rest) and not isinstance(rest[k], (Blob, Tok)) and bool(_is_ws(rest[k])):
-                k += 1
-            if k == 0:
-                raise ValueError("time data does not match format")
+            if fmt[len(dfmt)] == " ":
+                # \s+ then H:M
+                if not rest:
+                    raise ValueError("time data does not match format")
+                while k < len(rest) and not isinstance(rest[k], (Blob, Tok)) and bool(_is_ws(rest[k])):
+                    k += 1
+                if k == 0:
+                    raise ValueError("time data does not match format")
             h, m = _parse_hm(rest[k:])
             return SStructTime(day, h, m, 0)
         if fmt == "%H:%M":
             h, m = _parse_hm(list(s.items))
             return SStructTime(None, h, m, 0)
-        if fmt == "%d/%m/%Y":
+        if dfmt is not None and fmt == dfmt:
             items = list(s.items)
-            if len(items) == 1 and isinstance(items[0], Tok) and items[0].tkind == "LocalDate":
+            if len(items) == 1 and isinstance(items[0], Tok) and items[0].tkind == tkind:
                 return SStructTime(items[0].args[0], 0, 0, 0)
-            raise Unsupported("strptime %r on text that is not a rendered local date" % fmt)
+            raise Unsupported("strptime %r on text that is not a rendered date of that format" % fmt)
         raise Unsupported("strptime format %r" % fmt)
 
     def mktime(self, st):
@@ -602,6 +615,19 @@ def _bt(b):
     return b.t if isinstance(b, SymBool) else bool(b)
 
 
+# rendered calendar dates are atomic tokens (the day number they came from is kept, the digits are produced at witness time)
+DATE_FORMATS = {"%d/%m/%Y": "LocalDate", "%Y-%m-%d": "IsoDate", "%Y/%m/%d": "YmdSlash", "%d-%m-%Y": "DmyDash", "%d.%m.%Y": "DmyDot",
+                "%m/%d/%Y": "MdySlash"}
+DATE_TOKEN_FORMAT = {v: k for k, v in DATE_FORMATS.items()}
+
+
+def _date_prefix(fmt):
+    for f, tk in DATE_FORMATS.items():
+        if fmt.startswith(f):
+            return f, tk
+    return None, None
+
+
 def _render(fmt, st):
     out = []
     k = 0
@@ -621,8 +647,10 @@ def _render(fmt, st):
             out.extend(_two_digits(st.tm_sec))
         elif d == "%":
             out.append(37)
-        elif d == "d" and fmt[k - 2:k + 6] == "%d/%m/%Y":
-            out.append(Tok("LocalDate", [st.day], 10))
+        elif _date_prefix(fmt[k - 2:])[0] is not None:
+            if st.day is None:
+                raise Unsupported("date directive on a value without date")
+            out.append(Tok(_date_prefix(fmt[k - 2:])[1], [st.day], 10))
             k += 6
         else:
             raise Unsupported("strftime directive %%%s" % d)
@@ -877,6 +905,21 @@ class SDateTime:
         # naive datetime -> local time: the instant t with t + off(t) = these wall-clock seconds
         return TIME.mktime(self.timetuple())
 
+    def astimezone(self, tz=None):
+        # naive -> aware in the process's zone: the tzinfo is the FIXED offset in force at that instant
+        if tz is not None and tz is not _dt.timezone.utc:
+            raise Unsupported("astimezone(tz)")
+        t = self.timestamp()
+        t = t.n if isinstance(t, FL.FInt) else t
+        if tz is _dt.timezone.utc:
+            return SAwareDT(t, 0)
+        return SAwareDT(t + env().off(t), env().off(t))
+
+    tzinfo = None
+
+    def utcoffset(self):
+        return None
+
     def _shift(self, d):
         return SDateTime(self.off + d, base=self._base)
 
@@ -906,6 +949,116 @@ class SDateTime:
         a = self.off
         b = (o._base - self._base) + o.off
         return getattr(SymInt._coerce(a), op)(b)
+
+    def __lt__(self, o):
+        return self._cmp(o, "__lt__")
+
+    def __le__(self, o):
+        return self._cmp(o, "__le__")
+
+    def __gt__(self, o):
+        return self._cmp(o, "__gt__")
+
+    def __ge__(self, o):
+        return self._cmp(o, "__ge__")
+
+    def __eq__(self, o):
+        r = self._cmp(o, "__eq__")
+        return False if r is NotImplemented else r
+
+    def __hash__(self):
+        raise Unsupported("hash of symbolic datetime")
+
+
+class SAwareDT:
+    """aware datetime with a fixed-offset tzinfo: wall-clock seconds `local` and `offset`; the instant is local - offset"""
+
+    def __init__(self, local, offset):
+        self.local, self.offset = local, offset
+
+    @property
+    def instant(self):
+        return self.local - self.offset
+
+    def _fields(self):
+        return env().decomp(self.local, "adt")
+
+    hour = property(lambda self: self._fields()[1])
+    minute = property(lambda self: self._fields()[2])
+    second = property(lambda self: self._fields()[3])
+
+    def weekday(self):
+        return env().weekday_of_day(self._fields()[0])
+
+    def isoweekday(self):
+        return self.weekday() + 1
+
+    def strftime(self, fmt):
+        d, h, m, s = self._fields()
+        return _render(fmt, SStructTime(d, h, m, s))
+
+    def timetuple(self):
+        d, h, m, s = self._fields()
+        return SStructTime(d, h, m, s)
+
+    def time(self):
+        _d, h, m, s = self._fields()
+        return STime(h, m, s)
+
+    def date(self):
+        return SDate(self._fields()[0])
+
+    def timestamp(self):
+        return FL.FInt(self.instant)
+
+    def utcoffset(self):
+        return STimedelta(seconds=self.offset)
+
+    def astimezone(self, tz=None):
+        t = self.instant
+        if tz is _dt.timezone.utc:
+            return SAwareDT(t, 0)
+        if tz is not None:
+            raise Unsupported("astimezone(tz)")
+        te = env()
+        te.path.assume(_bt(te.in_window(t)))
+        return SAwareDT(t + te.off(t), te.off(t))
+
+    def replace(self, **kw):
+        if set(kw) == {"tzinfo"} and kw["tzinfo"] is None:
+            return SDateTime(self.local)
+        raise Unsupported("replace on an aware datetime")
+
+    def __add__(self, o):
+        if isinstance(o, STimedelta):
+            if o.us:
+                raise Unsupported("microseconds")
+            return SAwareDT(self.local + o.secs, self.offset)
+        if isinstance(o, _dt.timedelta):
+            if o.microseconds:
+                raise Unsupported("microseconds")
+            return SAwareDT(self.local + (o.days * DAY + o.seconds), self.offset)
+        return NotImplemented
+
+    __radd__ = __add__
+
+    def __sub__(self, o):
+        if isinstance(o, SAwareDT):
+            return STimedelta(seconds=self.instant - o.instant)
+        if isinstance(o, SDateTime):
+            raise TypeError("can't subtract offset-naive and offset-aware datetimes")
+        if isinstance(o, (STimedelta, _dt.timedelta)):
+            return self + (-o)
+        return NotImplemented
+
+    def _cmp(self, o, op):
+        if isinstance(o, SDateTime):
+            if op == "__eq__":
+                return False
+            raise TypeError("can't compare offset-naive and offset-aware datetimes")
+        if not isinstance(o, SAwareDT):
+            return NotImplemented
+        return getattr(SymInt._coerce(self.instant), op)(o.instant)
 
     def __lt__(self, o):
         return self._cmp(o, "__lt__")
@@ -965,7 +1118,7 @@ class _DTMeta(type):
 
 
 class SDateTimeClass(metaclass=_DTMeta):
-    _proxy = SDateTime
+    _proxy = (SDateTime, SAwareDT)
     _real = _dt.datetime
 
     def __new__(cls, *a, **k):
@@ -1013,7 +1166,7 @@ class SDateTimeClass(metaclass=_DTMeta):
                 raise TypeError("strptime() argument 1 must be str, not bytes")
             h, m = _parse_hm(list(s.items))
             return SDateTime(h * 3600 + m * 60, h=h, m=m, s=0, day=EPOCH_1900 // DAY, base=EPOCH_1900)
-        if fmt in ("%d/%m/%Y %H:%M", "%d/%m/%Y"):
+        if _date_prefix(fmt)[0] is not None:
             st = TIME.strptime(s, fmt)
             return SDateTime(((st.day * 24 + st.tm_hour) * 60 + st.tm_min) * 60, h=st.tm_hour, m=st.tm_min, s=0, day=st.day)
         raise Unsupported("datetime.strptime format %r" % fmt)
